@@ -153,7 +153,7 @@ def run_check(prop, tier, repo_root, only=None, verbose=False):
         traceback.print_exc()
         return 3
     keys = [k for k, c in db.contracts.items() if prop in c.serves and not c.assumed and not c.bounded and "::" in k
-            and not c.inline_in_harness]
+            and not c.inline_in_harness and not (c.inline and not c.ensures and not c.raises)]
     bounded = [c for c in db.contracts.values() if prop in c.serves and c.bounded]
     if only:
         keys = [k for k in keys if only in k]
